@@ -101,7 +101,7 @@ static struct env_log {
 static struct lock_log {
         int lock_calls, unlock_calls, lock_ret, unlock_ret;
         _Bool held, lock_err;
-        struct cat_object at_lock, at_unlock;                       /* object as seen at the first lock / at the last unlock */
+        struct cat_object at_lock, at_unlock, in_cs;                /* object at the first lock() call / at the last unlock() call / at the start of the critical section */
         _Bool lock_seen, unlock_seen;
 } EL;
 #define e_rd_calls (E.rd_calls)
@@ -277,6 +277,7 @@ static int e_lock(void)
 #ifdef H_LOCKRULE
                 h_havoc_shared();
 #endif
+                EL.in_cs = h_obj;
         }
         return e_lock_ret;
 }
